@@ -23,9 +23,18 @@ ASSUME \A key \in Keys8 : \A a, b \in 0..9 :
              g1 == Rc4Gen(8, st, a)
              g2 == Rc4Gen(8, g1.st, b)
          IN g = [st |-> g2.st, ks |-> g1.ks \o g2.ks]
+ASSUME \A a \in {63, 64, 65, 127, 128, 129, 200} : \A b \in {0, 1, 64, 65} :          \* across the chunks of Rc4Gen
+         LET st == Rc4Ksa(8, <<1,2,3>>)
+             g  == Rc4Gen(8, st, a + b)
+             g1 == Rc4Gen(8, st, a)
+             g2 == Rc4Gen(8, g1.st, b)
+         IN g = [st |-> g2.st, ks |-> g1.ks \o g2.ks] /\ g = Rc4GenR(8, st, a + b, <<>>)
 ASSUME \A key \in Keys8 : LET st == Rc4Ksa(8, key)  g == Rc4Gen(8, st, 1)  r == Rc4Step(8, st) IN g.st = r.st /\ g.ks = <<r.out>>
 ASSUME \A key \in Keys8 : LET st == Rc4Ksa(8, key)  m == <<0,1,2,3,4,5,6,7,7,7,0,3>>  c == Rc4Xor(8, st, m)
                           IN Len(c.out) = 12 /\ Rc4Xor(8, st, c.out).out = m /\ Rc4Xor(8, st, c.out).st = c.st
+ASSUME \A n \in {0, 1, 63, 64, 65, 128, 129, 150} :                                         \* across the chunks of Rc4Xor
+         LET st == Rc4Ksa(8, <<1,2,3>>)  m == Rep(5, n)  g == Rc4Gen(8, st, n)  c == Rc4Xor(8, st, m)
+         IN c.st = g.st /\ c.out = XorBytes(m, g.ks) /\ Len(c.out) = n
 \* the real size
 K256a == <<75,101,121>>          \* "Key"
 ASSUME LET st == Rc4Ksa(256, K256a) IN StOk(256, st) /\ SubSeq(st.S, 1, 4) = <<75, 51, 132, 157>>
